@@ -76,7 +76,10 @@ class Check(PropertyCheck):
         res = backend.run(cases)
         for c, r in zip(cases, res):
             self.evaluations += 1
-            if r["impl"] != r["model"]:
+            cmp = backend.compare_outputs(r["impl"], r["model"])
+            if cmp == "float":
+                self.count("inexact_float")
+            if cmp == "different":
                 dis.append(Disagreement("back end bytes", {"input": c[0], "input_hex": hx(c[0]), "entry": c[2]},
                                         r["model"][:300], r["impl"][:300]))
         return dis
